@@ -162,4 +162,5 @@ func init() {
 	runners["C12"] = runC12
 	runners["C20e2e"] = runC12
 	runners["C16res"] = runC12
+	runners["C05e2e"] = runC12
 }
